@@ -147,7 +147,7 @@ fn order_sensitive(kind: u8, names: Vec<u16>) -> (String, Single) {
     if ns.len() < 2 {
         ns = vec!["beta", "alpha"];
     }
-    match kind % 8 {
+    match kind % 10 {
         0 => {
             let args = ns.iter().enumerate().map(|(i, n)| format!("${}: {}", n, i)).collect::<Vec<_>>().join(", ");
             ("gen-keywords".into(), Single::scss(format!(
@@ -189,6 +189,24 @@ fn order_sensitive(kind: u8, names: Vec<u16>) -> (String, Single) {
             ("gen-named-arg-eval-order".into(), Single::scss(format!(
                 "@function t($x) {{ @debug $x; @return $x; }}\n@function g({}) {{ @return {}; }}\na {{ b: g({}); }}\n", params, body, args)))
         }
+        8 => {
+            // more than a hundred complex selectors in one extended list (above the size where
+            // redundant-selector trimming is skipped)
+            let n = 101 + (names_len_hint(&ns) * 7) % 40;
+            let mut t = String::from(".base { p: v; }\n");
+            for i in 0..n {
+                t.push_str(&format!(".{}-{} {{ @extend .base; }}\n", ns[i % ns.len()], i));
+            }
+            ("gen-extend-many".into(), Single::scss(t))
+        }
+        9 => {
+            // built-ins called with keyword arguments: their parameter names are identifiers too
+            let a = ns[0];
+            let b = ns[1 % ns.len()];
+            ("gen-named-builtin-args".into(), Single::scss(format!(
+                "${a}: 3;\n${b}: (k: 1, {a}: 2);\nx {{\n  i: if($condition: ${a} > 2, $if-true: {a}, $if-false: {b});\n  m: map-get($map: ${b}, $key: {a});\n  n: nth($list: 1 2 3, $n: ${a});\n  s: str-slice($string: \"{a}{b}\", $start-at: 2, $end-at: 4);\n  c: rgba($red: 1, $green: 2, $blue: 3, $alpha: 0.5);\n  j: join($list1: {a}, $list2: {b}, $separator: comma);\n  r: math-or-global-round(${a});\n}}\n@function math-or-global-round($number) {{ @return round($number: $number); }}\n",
+                a = a, b = b)))
+        }
         6 | 7 => {
             // members reached through `@forward … show/hide` (optionally prefixed): the filtered
             // member view must list them in a stable order
@@ -223,6 +241,10 @@ fn order_sensitive(kind: u8, names: Vec<u16>) -> (String, Single) {
             ("gen-with-config".into(), s)
         }
     }
+}
+
+fn names_len_hint(ns: &[&str]) -> usize {
+    ns.iter().map(|n| n.len()).sum::<usize>() + ns.len()
 }
 
 fn sorted_tokens(s: &str) -> Vec<String> {
@@ -280,7 +302,7 @@ impl Prop for C02 {
         "C02"
     }
     fn rule(&self) -> String {
-        "observed compilation X = corpus entry (no random()/unique-id()) or a generated order-sensitive program (keywords(), unknown-named-argument errors, meta.module-variables/functions, @extend chains, named arguments with @debug side effects, with() configuration); history = 0..8 prior compilations on the same thread (corpus entries, failing inputs, and sheets that intern X's identifiers in a permuted order); plus repetition in 0..2 fresh worker processes and 0/2/4/16 concurrent noise threads. Oracle: byte equality of CSS / error text / logger calls with the fresh-thread, empty-history run. Non-trivial = history non-empty and contains a permuted-identifier sheet sharing >= 2 identifiers with X, or a fresh-process repeat of a generated order-sensitive program, or a storm; distinct by (X, history). unique-id(): n in [2,200] calls yield n distinct CSS identifiers.".into()
+        "observed compilation X = corpus entry (no random()/unique-id()) or a generated order-sensitive program (keywords(), unknown-named-argument errors, meta.module-variables/functions, @extend chains and lists of more than 100 extended selectors, named arguments with @debug side effects, keyword-argument calls of built-ins, members listed through @forward show/hide, with() configuration); history = 0..8 prior compilations on the same thread (corpus entries, failing inputs, and sheets that intern X's identifiers in a permuted order); plus repetition in 0..2 fresh worker processes and 0/2/4/16 concurrent noise threads. Oracle: byte equality of CSS / error text / logger calls with the fresh-thread, empty-history run. Non-trivial = history non-empty and contains a permuted-identifier sheet sharing >= 2 identifiers with X, or a fresh-process repeat of a generated order-sensitive program, or a storm; distinct by (X, history). unique-id(): n in [2,200] calls yield n distinct CSS identifiers.".into()
     }
     fn assumptions(&self) -> Vec<String> {
         vec!["the harness does not own the thread schedule: concurrent interleavings are sampled with real threads, not enumerated".into()]
